@@ -10,9 +10,13 @@ open Context Py
 -/
 
 abbrev A := Assoc Nat Nat
-abbrev Pt := Nat × Nat × Nat   -- patcher: (id, key it sets, value it sets)
+abbrev Pt := Nat × Nat × Nat × Nat   -- patcher: (id, key, value, mode)
 
-def papply (p : Pt) (x : A) : A := merge x [(p.2.1, p.2.2)]
+/-- mode 0: `extra[key] = value` (idempotent); mode 1: `extra[key] = extra.get(key, 0) + value`
+(not idempotent: running it twice shows) -/
+def papply (p : Pt) (x : A) : A :=
+  if p.2.2.2 = 0 then merge x [(p.2.1, p.2.2.1)]
+  else merge x [(p.2.1, (get? x p.2.1).getD 0 + p.2.2.1)]
 
 def parseKw (s : String) : Option A :=
   if s = "_" then some [] else
@@ -25,8 +29,11 @@ def parseKw (s : String) : Option A :=
 def parsePt (s : String) : Option Pt :=
   match s.splitOn "," with
   | [i, k, v] => match i.toNat?, k.toNat?, v.toNat? with
-    | some i, some k, some v => some (i, k, v)
+    | some i, some k, some v => some (i, k, v, 0)
     | _, _, _ => none
+  | [i, k, v, m] => match i.toNat?, k.toNat?, v.toNat?, m.toNat? with
+    | some i, some k, some v, some m => some (i, k, v, m)
+    | _, _, _, _ => none
   | _ => none
 
 def parseBool (s : String) : Option Bool := if s = "1" then some true else if s = "0" then some false else none
